@@ -340,17 +340,17 @@ func judge(rec *Rec) *verdict {
 						}
 					}
 				}
-				attrs["trigger"] = "undelivered-reports<=10"
+				attrs["trigger"] = "none-identified"
 				if und > 10 {
 					attrs["trigger"] = "undelivered-reports>10(result channel full)"
 				}
 			}
 		}
-		if e.K == "add.call" {
+		if e.K == "add.call" || (e.K == "rm.call" && attrs["trigger"] == "none-identified") {
 			// is some other task's result channel full at this moment?
 			attrs["trigger"] = "none-identified"
 			for _, t := range torder {
-				if t.id == e.Task || t.addCall > e.T {
+				if t.id == e.Task || t.addCall > e.T || (t.rmRet > 0 && t.rmRet < e.T) {
 					continue
 				}
 				und := 0
